@@ -17,6 +17,43 @@ func runC02(r *Run) {
 	r.rule("C02.R1", "share delta balance: TotalShare and UndelegatableShare move by the same symbol; OperatorShare moves by it iff the staker is associated with that operator; associate/dissociate move exactly the staker's existing share", 8)
 	r.rule("C02.R2", "delegator-list maintenance with the shares", 8)
 	r.rule("C02.R3", "rounding direction and last-share rules", 5)
+	// the delegator list is a set kept in arrival order: "already listed" is decided by comparing the staker
+	// with every element (a binary search would need a sorted list)
+	if av := w.View("x/delegation/keeper", "Keeper.AppendStakerForOperator"); av != nil {
+		sp := paramName(av, 3)
+		okScan := false
+		ast.Inspect(av.Decl.Body, func(n ast.Node) bool {
+			rs, isR := n.(*ast.RangeStmt)
+			if !isR || lastField(rs.X) != "Stakers" || rs.Value == nil {
+				return true
+			}
+			ast.Inspect(rs.Body, func(m ast.Node) bool {
+				ret, isRet := m.(*ast.ReturnStmt)
+				if !isRet || len(ret.Results) != 1 || !isNilIdent(av.Info, ret.Results[0]) {
+					return true
+				}
+				for _, f := range av.FactsAt(ret, false) {
+					if c, isC := factCmp(f); isC && c.Op == "==" && ((av.objOf(c.L) == av.objOf(rs.Value) && exprString(c.R) == sp) || (av.objOf(c.R) == av.objOf(rs.Value) && exprString(c.L) == sp)) {
+						okScan = true
+					}
+				}
+				return true
+			})
+			return true
+		})
+		// no other early success exit
+		extra := 0
+		ast.Inspect(av.Decl.Body, func(n ast.Node) bool {
+			ret, isRet := n.(*ast.ReturnStmt)
+			if isRet && len(ret.Results) == 1 && isNilIdent(av.Info, ret.Results[0]) && av.innermostLoop(ret) == nil && ret.End() < av.Decl.Body.End()-2 {
+				if _, isIf := av.parent(av.parent(ret)).(*ast.IfStmt); isIf {
+					extra++
+				}
+			}
+			return true
+		})
+		r.check(okScan && extra == 0, "C02.R2", "AppendStaker|membership-by-equality-scan", av.pos(av.Decl), "a staker is skipped as already listed only when an element of the list equals it", "AppendStakerForOperator does not decide 'already listed' by comparing the staker with every element of the list (e.g. a binary search on the arrival-ordered list): a staker is listed twice and one copy survives its full exit")
+	}
 	iteratorVisitsAllRule(r, "C02.R1", map[string]bool{"x/delegation/keeper.Keeper.IterateDelegations": true})
 
 	get := func(pkg, fn string) (*FnView, []DTerm) {
